@@ -2,7 +2,7 @@
    The model find_task_full_name is total on arbitrary text; the component views
    ns_parts / local_parts are the splits the code itself performs. *)
 From Coq Require Import List Ascii String Bool Permutation.
-From TC Require Import PyStr Names NamesProofs.
+From TC Require Import PyStr Dict Value Param Names NamesProofs Chain ChainProofs.
 Import ListNotations.
 
 (* resolution never depends on the order in which tasks were declared *)
@@ -72,3 +72,13 @@ Example C10_examples :
   find_task_full_name true (lit "g:a") [lit "ns::g:a"; lit "ns::h:a"] = inl (lit "ns::g:a") /\
   find_task_full_name true (lit "a") [lit "aa"; lit "n::aa"] = inr ENotFound.
 Proof. vm_compute. repeat split. Qed.
+
+(* from a dependant's inputs: an ambiguous reference is an error for optional inputs as well - the default
+   of an optional input stands for an absent task, never for a choice that could not be made *)
+Theorem C10_ambiguous_input_is_an_error : forall classes ns names acc d n0,
+  (match i_ref d with inl s => inl s | inr k => match cls classes k with inl c => inl (c_slug c) | inr e => inr e end end) = inl n0 ->
+  dhas (prefixed ns n0) acc = false ->
+  find_task_full_name false (prefixed ns n0) names = inr EAmbiguous ->
+  resolve_one classes ns names acc d = inr EAmbiguous.
+Proof. exact resolve_one_ambiguous. Qed.
+Print Assumptions C10_ambiguous_input_is_an_error.
